@@ -58,6 +58,18 @@ type CheckSpec struct {
 	Outside     []string      `json:"outside_the_claim"`
 	Harnesses   []HarnessSpec `json:"harnesses"`
 	CallSites   []CallSiteObl `json:"call_site_obligations"`
+	ReachObls   []ReachObl    `json:"reach_obligations"`
+}
+
+// ReachObl is a structural obligation on the module's static call graph: from Root (a
+// function or "(*T).Method" of Pkg) none of MustNotReach (qualified callees such as
+// "os.OpenFile") is reachable except through one of Through.
+type ReachObl struct {
+	Pkg          string   `json:"pkg"`
+	Root         string   `json:"root"`
+	MustNotReach []string `json:"must_not_reach"`
+	Through      []string `json:"except_through"`
+	Msg          string   `json:"msg"`
 }
 
 // CallSiteObl is a structural obligation on the SSA of a package that the
@@ -460,6 +472,26 @@ func main() {
 					outLines = append(outLines, fmt.Sprintf("VIOLATION property=%s replay=%s", id, rp))
 					outLines = append(outLines, fmt.Sprintf("  call-site obligation fails in %s: %s", fn, o.Msg))
 				}
+			}
+		}
+	}
+
+	if *only == "" {
+		for _, o := range spec.ReachObls {
+			hit, found := prog.Reaches("github.com/Vedant9500/WTF", "github.com/Vedant9500/WTF/"+o.Pkg, o.Root, o.MustNotReach, o.Through)
+			if !found {
+				inconclusive = append(inconclusive, fmt.Sprintf("reach obligation: %s has no function %s any more", o.Pkg, o.Root))
+				continue
+			}
+			callSiteEv = append(callSiteEv, map[string]any{"function": o.Pkg + "." + o.Root, "obligation": o.Msg, "holds": len(hit) == 0})
+			for callee, from := range hit {
+				nReplays++
+				rp := filepath.Join(replayDir, fmt.Sprintf("reach_%d.json", nReplays))
+				jb, _ := json.MarshalIndent(map[string]any{"property": id, "kind": "reach", "root": o.Root, "reaches": callee, "from": from, "obligation": o}, "", " ")
+				os.WriteFile(rp, jb, 0o644)
+				violations++
+				outLines = append(outLines, fmt.Sprintf("VIOLATION property=%s replay=%s", id, rp))
+				outLines = append(outLines, fmt.Sprintf("  reach obligation fails: %s reaches %s (in %s): %s", o.Root, callee, from, o.Msg))
 			}
 		}
 	}
